@@ -602,3 +602,12 @@ Theorem C04_rewrite_sections_all : forall b pre secs, info_ok b -> adoc_ok pre s
                     (forall order', Permutation order' (style_keys d') -> write_ssa d' order' = Ok data).
 Proof. exact rewrite_sections_all. Qed.
 Print Assumptions C04_rewrite_sections_all.
+
+(* ---- CORRECTION to the header of this file (second audit, N7): what is compared outside the faithful domain ----
+   The header says that ParseFloat inputs outside the model's domain "are answered Err EOther and compared by result class
+   only".  What the harness really compares there (harness/core.go, observations whose model answer starts with NS) is
+   WEAKER: only whether the call PANICS -- model class Panic against a panic of the library.  The Ok / Err distinction is not
+   compared, and must not be: the model is not faithful there (witness: the style row [Style: s,12.3456] -- Go accepts it,
+   storing 12.3456; the model answers Err EOther).  So outside the domain nothing is claimed about the library beyond
+   "no panic" (C08); inside it values are compared exactly.  The domain itself is explicit: C04_float_cells_in_domain,
+   C04_number_spellings (every float cell a theorem quantifies over lies inside). *)
